@@ -29,7 +29,7 @@ pub const OP_NAMES: [&str; 8] = [
     "-Piecewise",
     "Piecewise::translate",
 ];
-pub const FAM_NAMES: [&str; 4] = ["PolyK", "Log<PolyK>", "IntOfLog<PolyK>", "IntOfLogPoly4"];
+pub const FAM_NAMES: [&str; 5] = ["PolyK", "Log<PolyK>", "IntOfLog<PolyK>", "IntOfLogPoly4", "PolyN (translate only)"];
 
 /// (family, op) pairs for which the library's trait bounds are satisfiable
 pub fn instances() -> Vec<(u8, u8)> {
@@ -243,12 +243,23 @@ impl Prop for C15 {
         (0..inst.len(), 0u8..9, ends, pools, scalars)
             .prop_map(move |(ii, deg, ends, pool, s)| {
                 let (fam, op) = inst[ii];
+                // 1 case in 16: PolyN pieces under translate (segment or piecewise level); the constant is the exact
+                // negation of the first piece's constant term in half of them
+                let polyn = pool[12].to_bits() % 16 == 0;
+                if polyn {
+                    let op = if pool[11].to_bits() % 2 == 0 { S_TRANSLATE } else { P_TRANSLATE };
+                    let s = if pool[10].to_bits() % 2 == 0 { -pool[0] } else { s };
+                    return Case { fam: 4, op, deg, ends: ends.into_iter().map(B).collect(), pool: pool.into_iter().map(B).collect(), s: B(s) };
+                }
                 Case { fam, op, deg, ends: ends.into_iter().map(B).collect(), pool: pool.into_iter().map(B).collect(), s: B(s) }
             })
             .boxed()
     }
     fn check(&self, case: &Case, ctx: &mut Ctx) -> Outcome {
         let (fam, op, deg) = (case.fam, case.op, case.deg % 9);
+        if fam == 4 {
+            return check_polyn(case, ctx);
+        }
         if !instances().contains(&(fam, op)) {
             return Outcome::Skip("no such operator impl");
         }
@@ -324,4 +335,63 @@ impl Prop for C15 {
     fn size(&self, c: &Case) -> usize {
         c.ends.len()
     }
+}
+
+
+/// `Translate` on `Segment<PolyN>` / `Piecewise<PolyN>` (the only scalar operation PolyN supports): pieces of
+/// different lengths (incl. empty), a constant that is often the exact negation of a piece's constant term.
+fn check_polyn(case: &Case, ctx: &mut Ctx) -> Outcome {
+    let ends: Vec<f64> = case.ends.iter().map(|b| b.0).collect();
+    let pool: Vec<f64> = case.pool.iter().map(|b| b.0).collect();
+    let s = case.s.0;
+    if pool.len() < 11 || pool.iter().any(|v| !v.is_finite()) || !s.is_finite() || ends.iter().any(|e| e.is_nan()) {
+        return Outcome::Skip("malformed case");
+    }
+    let piecewise_level = case.op == P_TRANSLATE;
+    ctx.label(FAM_NAMES[4]);
+    ctx.label(if piecewise_level { OP_NAMES[P_TRANSLATE as usize] } else { OP_NAMES[S_TRANSLATE as usize] });
+    ctx.nontrivial = ends.len() >= 2;
+    let piece = |j: usize| -> Vec<f64> {
+        let len = (j * 5 + case.deg as usize) % 7; // 0..=6 coefficients, empty included
+        (0..len).map(|i| pool[(i + j * 3) % pool.len()]).collect()
+    };
+    let pw = Piecewise { segments: ends.iter().enumerate().map(|(j, &e)| Segment { end: e, poly: PolyN(piece(j)) }).collect::<Vec<_>>() };
+    let out = if piecewise_level {
+        crate::lib!({
+            let mut o = pw.clone();
+            o.translate(s);
+            o
+        })
+    } else {
+        crate::lib!(Piecewise {
+            segments: pw
+                .segments
+                .iter()
+                .map(|sg| {
+                    let mut m = sg.clone();
+                    m.translate(s);
+                    m
+                })
+                .collect::<Vec<_>>()
+        })
+    };
+    ctx.comparisons += 1 + ends.len() as u64;
+    if out.segments.len() != ends.len() {
+        crate::fail!("translate on {} pieces of PolyN gave {} pieces", ends.len(), out.segments.len());
+    }
+    for (j, sg) in out.segments.iter().enumerate() {
+        if sg.end.to_bits() != ends[j].to_bits() {
+            crate::fail!("translate on PolyN pieces: breakpoint #{j} changed from {} to {}", hex(ends[j]), hex(sg.end));
+        }
+        let mut want = piece(j);
+        if want.is_empty() {
+            want.push(s);
+        } else {
+            want[0] += s;
+        }
+        if !nums_eq(&sg.poly.0, &want) {
+            crate::fail!("translate({}) on piece #{j} = PolyN({:?}) gave PolyN({:?}) but adding the constant to the additive constant only gives {:?}", hex(s), piece(j), sg.poly.0, want);
+        }
+    }
+    Outcome::Pass
 }
